@@ -183,8 +183,12 @@ Definition scope_given (s : pscope) : bool := match s with ScProjectRelParts => 
 (* ---------- the predicates ---------- *)
 Definition excl_comp (c : string) : bool := smem c excluded_dirs || suffixb excluded_suffix_of_part c.
 
+(* the parts the built-in exclusion loops over: all of them, or (source fix 27377de) the directory parts only *)
+Definition dir_parts (parts : list string) : list string :=
+  if hard_exclusion_skips_file_name then removelast parts else parts.
+
 Definition hard_excluded (parts : list string) (name : string) : bool :=
-  smem (py_suffix name) excluded_exts || existsb excl_comp parts.
+  smem (py_suffix name) excluded_exts || existsb excl_comp (dir_parts parts).
 
 Fixpoint rstrip_slash_rev (s : string) : string :=   (* on the reversed string *)
   match s with
@@ -194,14 +198,28 @@ Fixpoint rstrip_slash_rev (s : string) : string :=   (* on the reversed string *
 Definition rstrip_slash (s : string) : string := srev (rstrip_slash_rev (srev s)).
 Definition ends_with_slash (s : string) : bool := match srev s with String c _ => Ascii.eqb c slash | EmptyString => false end.
 
-(* pattern_utils.matches_pattern(check_path, pattern); parts = Path(check_path).parts *)
+(* pattern_utils.matches_pattern(check_path, pattern); parts = Path(check_path).parts  (source after fix 9c8f928):
+   `**/x` also matches what x matches; a directory pattern `d/` matches a DIRECTORY component d or the glob d/* *)
+Definition drop3 (s : string) : string := drop1 (drop1 (drop1 s)).
+
+Fixpoint matches_pattern_f (fuel : nat) (s : string) (parts : list string) (pat : string) : bool :=
+  (match fuel with
+   | 0 => false
+   | S n => prefixb "**/" pat && matches_pattern_f n s parts (drop3 pat)
+   end)
+  || (if ends_with_slash pat then
+        let d := rstrip_slash pat in smem d (removelast parts) || glob (d ++ "/*") s
+      else glob pat s).
+
 Definition matches_pattern (s : string) (parts : list string) (pat : string) : bool :=
-  if ends_with_slash pat then
-    let d := rstrip_slash pat in smem d parts || glob (d ++ "*") s
-  else glob pat s.
+  matches_pattern_f (String.length pat) s parts pat.
 
 Definition repo_ignored (pats : list string) (s : string) (parts : list string) : bool :=
   existsb (matches_pattern s parts) pats.
+
+(* DirectoryMatcher._check_path_match: startswith(dir) or (source fix a23cd20) startswith(dir.rstrip("/") + "/") *)
+Definition fp_dir_match (dir path : string) : bool :=
+  if fp_dir_rule_needs_separator then prefixb (rstrip_slash dir ++ "/") path else prefixb dir path.
 
 Definition linter_ignored (k : ikind) (pats : list string) (sub_s glob_s : string) (parts : list string) : bool :=
   match k with
@@ -209,7 +227,7 @@ Definition linter_ignored (k : ikind) (pats : list string) (sub_s glob_s : strin
   | ISubstr => existsb (fun p => substrb p sub_s) pats
   | IMatchOrSubstr => existsb (fun p => path_match p parts || substrb p sub_s) pats
   | IFnmatchOrSubstr => existsb (fun p => glob p glob_s || substrb p sub_s) pats
-  | IFpDirPrefix => existsb (fun p => prefixb p glob_s) pats
+  | IFpDirPrefix => existsb (fun p => fp_dir_match p glob_s) pats
   end.
 
 Definition test_exempt (t : tspec) (s : string) (name : string) : bool :=
@@ -264,7 +282,7 @@ Definition rule_ignored (q : quirks) (e : env) (g : gpath) (rel : list string) :
 
 (* file-placement: PathResolver.get_relative_path *)
 Definition fp_path (q : quirks) (e : env) (g : gpath) (rel : list string) : string :=
-  if q_fp_relative_unchanged q then fst (parser_view (e_root e) g) else unrooted rel.
+  if q_fp_relative_unchanged q && negb fp_relative_paths_rerooted then fst (parser_view (e_root e) g) else unrooted rel.
 
 Definition ignore_pats (sg : cmdsig) (configured : option (list string)) : list string :=
   if cs_ignore_from_config sg then match configured with Some l => l | None => cs_default_ignore sg end
